@@ -626,17 +626,16 @@ def c12_jobs(tier):
         jobs.append({"func": "verif_C12_ctor", "args": [3, pa]})
     # algorithm entry points under a write watch (zzverif/c12alg.go)
     for which in range(24):
-        for kind in ((0,) if quick else (0, 1)):
-            for n in ((2,) if quick else (2, 3)):
-                if kind == 1 and n == 3:
-                    continue
+        # (the terms of these runs are large: a process that follows a 3x3 factorisation for a minute holds
+        # several GB, so the thorough tier adds Real64 and a longer budget at n = 2 and keeps n = 3 short)
+        for (kind, n) in ([(0, 2)] if quick else [(0, 2), (1, 2), (0, 3)]):
                 jobs.append({"pkg": ZZ, "func": "verif_C12_alg", "args": [which, kind, n], "tag": f"alg which={which} kind={kind} n={n}",
-                             "bfs": True, "max_paths": 24 if quick else 48, "max_wall_ms": 20000 if quick else 60000, "selftest": True})
+                             "bfs": True, "max_paths": 24 if (quick or n == 3) else 48, "max_wall_ms": 20000 if (quick or n == 3) else 45000, "selftest": True})
                 if which in (0, 1, 2, 3, 4, 5, 6, 18, 19, 20, 22, 23):
                     # iterative routines: also depth first, which follows the convergence loop (the
                     # breadth-first job sees the early exits) until the step bound
-                    if kind != 0:
-                        continue  # followed runs keep every term of the run alive: Float64 only, bounded depth
+                    if kind != 0 or n != 2:
+                        continue  # followed runs keep every term of the run alive: Float64, n = 2, bounded depth
                     jobs.append({"pkg": ZZ, "func": "verif_C12_alg", "args": [which, kind, n], "tag": f"alg-deep which={which} kind={kind} n={n}",
                                  "max_paths": 6 if quick else 10, "max_steps": 400000 if quick else 250000, "max_wall_ms": 25000 if quick else 90000, "selftest": False,
                                  "follow": "c12"})
@@ -653,7 +652,7 @@ PROPS["C12"] = {
     "selftest_vars": ["a", "a.d", "a.h", "v", "v.d", "w", "w.d", "w.h", "u", "u.d", "u.h", "b", "b.d", "f", "g"],
     "bounds": {"quick": "Clone*/As* of dense and sparse Float64/Real64 vectors (length 3) and matrices (Slice/T views of a 3x3 parent, all slice bounds), Real64/Float64 scalars (jets N=2, order 2), iterator clones; "
                         "symbolic element values, every position of clone / source mutated with symbolic values; read-only operands of 6 operation groups; index/value constructors; 24 algorithm entry-point configurations (incl. an InSitu object reused for a second matrix) (qrAlgorithm incl. Symmetric and caller-supplied work space, eigensystem, svd, Hessenberg / bidiagonal / tridiagonal reductions, Gram-Schmidt, Cholesky, inverse, determinant, back substitution, msqrt, msqrtInv) on symbolic 2x2 matrices with the input under a write watch",
-               "thorough": "also Float32/Real32 and depth-3 views; algorithm entry points also on 3x3 and Real64"},
+               "thorough": "also Float32/Real32 and depth-3 views; algorithm entry points also with Real64 elements and (breadth-first, 24 paths) on 3x3"},
     "outside": "optimiser entry points (start vectors of rprop / bfgs / newton / gradientDescent / saga); distributions' constructors; for the iterative entry points the input is watched along the explored paths only (breadth-first, path and time caps stated in the evidence): a write that happens only after many iterations is not seen",
     "assumptions": ["map iteration order modelled as ascending key order"],
 }
